@@ -131,6 +131,9 @@ def d_layout(ctx, fits):
             ctx.unrec(rule, 'fits.py:total_least_squares#hessian-compact-%s' % which, 'hessian(%s)(...) not found' % cf.name)
             continue
         segs = [unparse(strip_ravel(s)) for s in concat_segments(hc[0].args[0])]
+        fp_ = find_def(f, 'fitp')
+        if len(fp_) == 1 and unparse(fp_[0].value) == 'out.beta':
+            segs = ['fitp' if x_ == 'out.beta' else x_ for x_ in segs]          # fitp is out.beta
         ctx.check(rule, 'fits.py:total_least_squares#concat-%s' % which, segs == ['fitp', 'out.xplus', third],
                   'compact vector = (fitp | xplus | %s)' % third, 'compact vector is (%s), the slices assume (fitp | xplus | %s)' % (' | '.join(segs), third), fits.loc(hc[0]))
         # same chi-square when the third segment is substituted for the data
@@ -179,18 +182,27 @@ def d_layout(ctx, fits):
     while loop is not None and not isinstance(loop, ast.For):
         loop = fits.parents.get(loop)
     iv = unparse(loop.target) if loop is not None else '?'
+    # `for p, gx, gy in zip(out.beta, deriv_x[:n_parms], deriv_y[:n_parms])` is the index loop over the parameters
+    subst, zipped = {}, False
+    if loop is not None and isinstance(loop.iter, ast.Call) and call_name(loop.iter) == 'zip' and isinstance(loop.target, ast.Tuple) and len(loop.target.elts) == len(loop.iter.args) \
+            and all(isinstance(x_, ast.Name) for x_ in loop.target.elts) \
+            and all(unparse(a_) in ('fitp', 'out.beta', 'deriv_x', 'deriv_y', 'deriv_x[:n_parms]', 'deriv_y[:n_parms]') for a_ in loop.iter.args) \
+            and any(unparse(a_) in ('fitp', 'out.beta') for a_ in loop.iter.args):
+        iv, zipped = 'i', True
+        subst = {x_.id: '%s[i]' % unparse(a_).replace('[:n_parms]', '') for x_, a_ in zip(loop.target.elts, loop.iter.args)}
+    from .C14 import _subst as _sub14
     ctx.check(rule, 'fits.py:total_least_squares#data-list', unparse(dc.args[1]) == 'list(x.ravel()) + list(y)', 'data = (x.ravel() | y)', 'data list is %s' % unparse(dc.args[1]), fits.loc(dc))
     mg = kwarg(dc, 'man_grad')
-    ctx.check(rule, 'fits.py:total_least_squares#man_grad', mg is not None and unparse(mg) == 'list(deriv_x[%s]) + list(deriv_y[%s])' % (iv, iv),
+    ctx.check(rule, 'fits.py:total_least_squares#man_grad', mg is not None and unparse(_sub14(mg, subst)) == 'list(deriv_x[%s]) + list(deriv_y[%s])' % (iv, iv),
               'gradient = (row i of deriv_x | row i of deriv_y), same order as the data list', 'man_grad is %s' % unparse(mg), fits.loc(dc))
-    ctx.check(rule, 'fits.py:total_least_squares#all-parameters', loop is not None and unparse(loop.iter) == 'range(n_parms)', 'one result per parameter', 'loop over %s' % (unparse(loop.iter) if loop else None))
+    ctx.check(rule, 'fits.py:total_least_squares#all-parameters', loop is not None and (unparse(loop.iter) == 'range(n_parms)' or zipped), 'one result per parameter', 'loop over %s' % (unparse(loop.iter) if loop else None))
     # x_f / y_f are the central values of x / y in the order of the data list
     xf, yf = find_def(f, 'x_f'), find_def(f, 'y_f')
     okv = len(xf) == 1 and 'o.value' in unparse(xf[0].value) and unparse(xf[0].value).endswith('(x)') and len(yf) == 1 and unparse(yf[0].value) == 'np.array([o.value for o in y])'
     ctx.check(rule, 'fits.py:total_least_squares#central-values', okv, 'x_f, y_f = central values of x, y', 'x_f=%s y_f=%s' % ([unparse(s.value) for s in xf], [unparse(s.value) for s in yf]))
     c = carrier_check(ctx, 'C08-D4', 'fits.py:total_least_squares#carrier', fits, f, dc, iv)
     if c is not None:
-        ctx.check('C08-D4', 'fits.py:total_least_squares#carrier-index', unparse(c) in ('out.beta[%s]' % iv, 'fitp[%s]' % iv), 'carrier value is beta[i] for the same i', 'carrier value %s' % unparse(c), fits.loc(dc))
+        ctx.check('C08-D4', 'fits.py:total_least_squares#carrier-index', unparse(_sub14(c, subst)) in ('out.beta[%s]' % iv, 'fitp[%s]' % iv), 'carrier value is beta[i] for the same i', 'carrier value %s' % unparse(c), fits.loc(dc))
     fp = find_def(f, 'fitp')
     ctx.check('C08-D4', 'fits.py:total_least_squares#fitp', len(fp) == 1 and unparse(fp[0].value) == 'out.beta', 'fitp = ODR solution', 'fitp = %s' % [unparse(s.value) for s in fp])
     # dof / p-value
